@@ -121,7 +121,7 @@ func ruleMergeIntroducerRemap(r *Report, in introducers, rule string) {
 		vals := map[string]ast.Expr{}
 		for _, el := range cl.Elts {
 			if kv, ok := el.(*ast.KeyValueExpr); ok {
-				vals[kv.Key.(*ast.Ident).Name] = kv.Value
+				vals[kv.Key.(*ast.Ident).Name] = resolveCopies(info, fi.Decl.Body, kv.Value) // `segmentID := x.id` earlier in the iteration
 			}
 		}
 		seg := vals["segment"]
